@@ -51,6 +51,29 @@ def plan(tier, seed):
     return specs, meta
 
 
+QFORMS = ('tuple', 'list', 'set', 'frozenset', 'generator', 'iterator',
+          'dict_keys')
+
+
+def as_form(form, xs):
+    xs = list(xs)
+    if form == 'tuple':
+        return tuple(xs)
+    if form == 'list':
+        return xs
+    if form == 'set':
+        return set(xs)
+    if form == 'frozenset':
+        return frozenset(xs)
+    if form == 'generator':
+        return (x for x in xs)
+    if form == 'iterator':
+        return iter(xs)
+    if form == 'dict_keys':
+        return dict.fromkeys(xs).keys()
+    raise ValueError(form)
+
+
 def call(ctx, A, ab, _a, _b, fn, tr, st, rename, qvars, fa, how):
     """Run image/preimage through one of the entry points; returns an
     int reference."""
@@ -63,7 +86,9 @@ def call(ctx, A, ab, _a, _b, fn, tr, st, rename, qvars, fa, how):
     if how == 2:
         f = _a.image if fn == 'image' else _a.preimage
         t, s = _a.Function(tr, ab), _a.Function(st, ab)
-        r = f(t, s, rename, set(qvars), fa)
+        form = QFORMS[(tr + 3 * st + len(qvars) + fa) % len(QFORMS)]
+        ctx.counters['qvars_as_' + form] += 1
+        r = f(t, s, rename, as_form(form, qvars), fa)
         ctx.counters['autoref_results'] += 1
         u = r.node
         # the caller judges immediately; keep no handle
@@ -73,7 +98,10 @@ def call(ctx, A, ab, _a, _b, fn, tr, st, rename, qvars, fa, how):
         A.bdd.decref(u)
         return u
     f = _b.image if fn == 'image' else _b.preimage
-    return f(tr, st, rename, qvars, bdd, fa)
+    # `qvars` is documented as an iterable: vary the container
+    form = QFORMS[(tr + 3 * st + len(qvars) + fa) % len(QFORMS)]
+    ctx.counters['qvars_as_' + form] += 1
+    return f(tr, st, rename, as_form(form, qvars), bdd, fa)
 
 
 def in_class(sp, fn, trans, st, rename, qvars):
